@@ -10,27 +10,38 @@ DRIVER = "C34"
 GENERATED = []
 SOURCES = ["src/allmydata/introducer/client.py", "src/allmydata/introducer/common.py", "src/allmydata/crypto/ed25519.py"]
 DESIGN_REF = "DESIGN.md §2 C34, §3 (C34 row)"
-TECHNIQUE = ("Lean 4 theorems over an executable model of unsign_from_foolscap, IntroducerClient.got_announcements (repaired loop) and "
-             "_process_announcement with symbolic Ed25519; differential correspondence on a real IntroducerClient fed seeded streams of "
-             "really signed / forged / replayed / malformed announcement tuples; monitor: authenticity, per-index seqnum rule, and "
-             "batch-independence against a second real client fed one announcement per call")
-LEVEL_TEXT = ("accepted_implies_verified_and_attributed, seqnum_monotone (+ replace_requires_higher_seqnum), bad_one_does_not_stop_batch "
-              "proved in Lean for all streams of batches of arbitrary wire tuples; the model is tied to introducer/client.py by comparing, "
-              "per got_announcements call, every unsign_from_foolscap outcome, the _debug_counts deltas, the subscriber deliveries and the "
-              "final _inbound_announcements on seeded streams.")
-LEVEL_NOTE = ("Lean kernel + standard axioms; Ed25519 unforgeability is an explicit hypothesis (symbolic instance); json decoding and the "
-              "reads made of the decoded object are abstracted as a classifier computed by the harness; the batch loop modelled is the "
-              "repaired one (fixes/C34-batch-except.diff).")
-RULE = ("seeded streams of got_announcements batches against a real allmydata.introducer.client.IntroducerClient (no tub, no network); a "
-        "case is one wire tuple handed to the client; distinct = distinct (symbolic stream prefix, tuple); non-trivial = the tuple is not the "
-        "first of its stream (the client holds state or is inside a batch)")
-TRUSTED = ["lean/Tahoe/Introducer/Model.lean is a hand transcription of unsign_from_foolscap / got_announcements / _process_announcement",
-           "harness classify_*(): outcomes of base32 decoding, utf-8/json decoding, str(ann['service-name']), the log-description code and "
-           "the type of ann['seqnum'] are computed with the same library calls the code uses",
-           "mapping of real Ed25519 signatures to symbolic ids (re-signing every message with every pool key; Ed25519 is deterministic)"]
-ASSUMPTIONS = ["Ed25519: verification succeeds only for a signature produced with the matching private key on exactly those bytes (every tuple's real verification outcome is compared with the symbolic one)",
+TECHNIQUE = ("Lean 4 theorems over an executable model of unsign_from_foolscap, IntroducerClient.got_announcements, _process_announcement and "
+             "subscribe_to with symbolic Ed25519 and key strings decoded to verifying keys; differential correspondence on a real "
+             "IntroducerClient fed seeded histories of really signed / forged / replayed / reordered / malformed / re-spelled announcement "
+             "tuples, late subscriptions and many-key crowds; monitor written from the statement: authenticity and attribution, the seqnum "
+             "rule per verifying key on the delivered sequence, and batch-independence against a second real client fed one announcement "
+             "per call")
+LEVEL_TEXT = ("11 theorems in Tahoe.Props.C34, for all histories of batches of arbitrary wire tuples (and subscribe_to calls): "
+              "accepted_implies_verified_and_attributed, accepted_implies_signed_by_key_owner (under Unforgeable), "
+              "accepted_implies_verified_with_subscriptions, late_subscriber_is_told_the_stored_announcements, "
+              "replace_requires_higher_seqnum, seqnum_monotone, seqnum_monotone_with_subscriptions, seqnum_rule_per_verifying_key, "
+              "respelling_is_irrelevant, bad_one_does_not_stop_batch, batch_is_sequential.  The table of remembered announcements is unbounded "
+              "in the model.  Tied to introducer/client.py and common.py by comparing, per got_announcements / subscribe_to call, every "
+              "unsign_from_foolscap outcome, the _debug_counts deltas, the notifications and the final _inbound_announcements.")
+LEVEL_NOTE = ("Lean kernel + standard axioms only; Ed25519 unforgeability is an explicit hypothesis (symbolic instance); UTF-8/JSON decoding "
+              "and the reads made of the decoded object are the model parameter `parse`, key-string decoding the parameter `dec`, both "
+              "computed by the harness with the code's own library calls.  The batch-abort defect found here (only BadSignature was caught) "
+              "is repaired in /repo (fixes/C34-batch-except.diff, committed); the model is the repaired loop.  Not modelled: the announcement "
+              "cache file (_load_announcements delivers locally cached announcements without re-verifying them), announcements containing NaN.")
+RULE = ("seeded histories against a real allmydata.introducer.client.IntroducerClient (no tub, no network): got_announcements batches of "
+        "wire tuples (new / replay / old / same, lower, missing, non-integer seqnum; first seqnum regularly 0, negative or huge; wrong key, "
+        "flipped message or signature, bad encodings, other spellings of a genuine key string, correctly signed malformed content, wrong "
+        "tuple shapes) interleaved with subscribe_to calls; a case is one wire tuple or subscribe_to call; distinct = distinct (symbolic "
+        "history prefix, event); non-trivial = not the first event of its history.  A fixed corpus runs first (batch-abort kinds, stored "
+        "seqnum 0 / negative / huge, signature re-used on other bytes, key spellings, late subscription, 2 victims + 257 one-shot keys then "
+        "replays); the random many-key family runs in the thorough tier; VERIF_CORPUS_ONLY=1 runs only the corpus")
+TRUSTED = ["lean/Tahoe/Introducer/Model.lean is a hand transcription of unsign_from_foolscap / got_announcements / _process_announcement / subscribe_to",
+           "harness classify_*(): outcomes of key-string decoding (ed25519.verifying_key_from_string), base32 decoding of the signature, utf-8/json decoding, "
+           "str(ann['service-name']), the log-description code and the type of ann['seqnum'] are computed with the same library calls the code uses",
+           "mapping of real Ed25519 signatures to symbolic ids (re-signing every message with the pool keys; Ed25519 is deterministic)"]
+ASSUMPTIONS = ["Ed25519: verification succeeds only for a signature produced with the matching private key on exactly those bytes (explicit hypothesis Unforgeable; every tuple's real verification outcome is compared with the symbolic one)",
                "key strings: the model files announcements under the decoded verifying key; the code files them under the received string; they agree because the decoder accepts one spelling per key — checked on every run by sending case / whitespace / pad-bit variants of genuine key strings (kind key-spelling), which must be refused",
-               "subscriptions are made before the stream; the announcement cache file and late subscribe_to replay are not modelled",
+               "the first observer of each service records the notifications (one entry per ObserverList.notify call); many-key histories use one client (the one-call-per-tuple reference client is left out for cost: the client rewrites its whole YAML cache on every accepted announcement)",
                "announcements containing NaN are not generated (a dict holding NaN is not == to an equal copy, so the duplicate test differs)"]
 
 N_KEYS = 3
